@@ -142,3 +142,17 @@ Example regexp_ex :
   /\ print_regexp (mkQ false true false 0 false true) [120; 60] [47; 83; 67; 82; 73; 80; 84; 47] = [47; 83; 67; 82; 73; 80; 84; 47]
   /\ print_bigint [97] [49; 50] = [32; 49; 50; 110].
 Proof. vm_compute. repeat split; reflexivity. Qed.
+
+From V Require Import C01.Tagged C01.TaggedProofs.
+(* tag`a\unicode\<LF>$${x}\`}`  : an invalid escape, a line continuation, `$` before a substitution, an escaped backtick *)
+Example tagged_ex :
+  lexer_raw [97; 92; 117; 110; 105; 99; 111; 100; 101; 92; 10; 36] /\ lexer_raw [92; 96; 125]
+  /\ raw_value (tagged_cps [97; 92; 117; 110; 105; 99; 111; 100; 101; 92; 10; 36] [[92; 96; 125]])
+      = Some [[97; 92; 117; 110; 105; 99; 111; 100; 101; 92; 10; 36]; [92; 96; 125]]
+  /\ raw_value (tagged_cps [97; 13; 10; 98] []) = Some [[97; 10; 98]]
+  /\ raw_value (tagged_cps [97; 36; 123] []) = None.
+Proof.
+  split; [split; [cbn; intuition lia|split; [cbn; unfold SUBST; intuition lia|eexists; vm_compute; reflexivity]]|].
+  split; [split; [cbn; intuition lia|split; [cbn; unfold SUBST; intuition lia|eexists; vm_compute; reflexivity]]|].
+  vm_compute. repeat split; reflexivity.
+Qed.
